@@ -15,10 +15,13 @@ Trees == Leaf \cup Rows \cup {<<"list", it>> : it \in SeqsOf(Leaf \cup Rows, Max
 CfgSpace == [mgr : {"perception", "sensing"}, task : TaskSet, x : BOOLEAN, y : BOOLEAN, dmax : BOOLEAN, dmin : BOOLEAN,
              minPts : BOOLEAN, unknownKey : BOOLEAN, nFrameIds : 1..2, thr : {"ok", "bad"}, n : {2},
              aux : {"min_point_numbers", "confidence_threshold", "max_matchable_radii", "max_x_position"},
-             auxShape : {"list", "scalar", "zero", "singleton", "empty", "short"}]
-\* the aux dimension only varies on otherwise plain configurations (keeps the product small)
-AuxOk(c) == (c.auxShape = "list" /\ c.aux = "min_point_numbers")
-            \/ (c.task \in {"detection", "tracking"} /\ c.mgr = "perception" /\ c.x /\ c.y /\ ~c.dmax /\ ~c.dmin /\ c.minPts /\ ~c.unknownKey /\ c.nFrameIds = 1 /\ c.thr = "ok")
+             auxShape : {"list", "scalar", "zero", "singleton", "empty", "short"},
+             prefix : {"ok", "missing", "corrupt"}]
+\* the aux and prefix dimensions only vary on otherwise plain configurations (keeps the product small)
+Plain(c) == c.task \in {"detection", "tracking"} /\ c.mgr = "perception" /\ c.x /\ c.y /\ ~c.dmax /\ ~c.dmin /\ c.minPts /\ ~c.unknownKey /\ c.nFrameIds = 1 /\ c.thr = "ok"
+PlainSensing(c) == c.task = "sensing" /\ c.mgr = "sensing" /\ ~c.x /\ ~c.y /\ ~c.dmax /\ ~c.dmin /\ ~c.minPts /\ ~c.unknownKey /\ c.nFrameIds = 1 /\ c.thr = "ok"
+AuxOk(c) == /\ ((c.auxShape = "list" /\ c.aux = "min_point_numbers") \/ Plain(c))
+            /\ (c.prefix = "ok" \/ ((Plain(c) \/ PlainSensing(c)) /\ c.auxShape = "list" /\ c.aux = "min_point_numbers"))
 \* partial kinds: one complete kind plus one list of the other (xy+dmax, ring+x), or a single list (x-only, dmax-only) - never accepted for 3-D
 FrameSpace == [kind : {"xy", "ring", "both", "none"}, lenDelta : -1..1, is2d : BOOLEAN]
                 \cup [kind : {"xy+dmax", "ring+x", "x-only", "dmax-only"}, lenDelta : {0}, is2d : {FALSE}]
